@@ -190,7 +190,7 @@ STATS = ('total', 'count', 'min', 'max', 'median', 'mean', 'variance', 'variance
          'standard-deviation', 'standard-deviation-n')
 NUMERIC_ONLY = ('total', 'mean', 'variance', 'variance-n', 'standard-deviation',
                 'standard-deviation-n')
-NAMES = ('x', 'n', 'age', 'count', 'value')
+NAMES = ('x', 'n', 'age', 'count', 'value', 'Price', 'unitCost', 'TOTAL', 'a2')     # incl. mixed and upper case: names are case-sensitive
 MODES = (('var', True), ('var', False), ('expr', True), ('expr', False))
 SEP = '\x1f'
 MARK = '\x1e'
